@@ -226,7 +226,7 @@ func runCase(c Case) (out Out) {
 		if p != "" {
 			out.Outcome, out.Detail = "panic", "Close: "+p
 		}
-	case <-time.After(hangTimeout):
+	case <-time.After(hangTimeout + time.Duration(c.WdlMs)*time.Millisecond):
 		out.Outcome = "hang"
 	}
 	// let every closer that was called finish (they are released by rec.closed); bounded
